@@ -19,9 +19,15 @@ from harness.impl import fordrun as F
 
 IMPORTS = ("From Ford Require Import Base.Str Base.Path Out.Names Out.External Out.ExternalSpec Corr.C16.\n"
            "Definition rq (i : nat) (d n : str) : req := {| r_id := i; r_dir := d; r_name := n |}.")
-THEOREMS = []   # filled below once Props/C16.v exists
+THEOREMS = ["C16_roundtrip", "C16_import_export", "C16_target_unique", "C16_target_written_partial",
+            "C16_target_written_refuted", "C16_export_exact_partial", "C16_export_exact_refuted_private_listed",
+            "C16_export_exact_refuted_public_unlisted", "C16_local_first", "C16_local_first_find_partial",
+            "C16_local_first_find_refuted", "C16_load_errors_contained_partial",
+            "C16_load_errors_contained_refuted_missing", "C16_load_errors_contained_refuted_absolute",
+            "C16_load_errors_contained_refuted_undecodable", "C16_load_errors_contained_refuted_shape",
+            "C16_load_errors_contained_refuted", "C16_tables_fingerprint"]
 REGIONS = {1: "export-follows-display", 2: "missing-modules-json", 3: "wrong-shape-json", 4: "absolute-local-path",
-           5: "undecodable-modules-json", 6: "external-module-before-local-entity"}
+           5: "undecodable-modules-json", 6: "external-before-local-entity"}
 
 
 def cs(x):
@@ -38,7 +44,7 @@ class BuiltA:
     """A generated, rendered and documented (externalize) in a scratch directory"""
 
     def __init__(self, rng, knobs=None, A=None):
-        self.A = A or G.gen_A(rng, knobs)
+        self.A = copy.deepcopy(A) if A else G.gen_A(rng, knobs)
         self.files = G.render_A(self.A)
         self.work = F.Work({"A/" + k: v for k, v in self.files.items()})
         self.root = self.work.root / "A"
@@ -129,18 +135,36 @@ def gen_queries(rng, p, names, local):
     return qs
 
 
-def load_case(rng, descriptions):
+def forced_queries(p, qs):
+    out = []
+    for q in qs:
+        if q[0] == "use":
+            out.append((f"(QUse {cs(q[1])})", I.q_use(p, q[1])))
+        elif q[0] == "find":
+            child = tuple(q[3]) if q[3] else None
+            ct = "None" if child is None else f"(Some ({cs(child[0])}, {copt(child[1], cs)}))"
+            out.append((f"(QFind {cs(q[1])} {copt(q[2], cs)} {ct})", I.q_find(p, q[1], q[2], child)))
+        else:
+            out.append((f"(QUsed {cs(q[1])} {cs(q[2])} {cs(q[3])})", I.q_used(p, q[1], q[2], q[3])))
+    return out
+
+
+def load_case(rng, descriptions, force=None):
     """one CLoad case: a source in some state, loaded by FORD's load_external_modules into a stub project"""
-    desc = rng.choice(descriptions) if (descriptions and rng.random() < 0.5) else G.small_description(rng)
-    mutated = rng.random() < 0.7
-    if mutated:
-        for _ in range(rng.choice([1, 1, 2])):
-            desc = G.mutate_description(rng, desc)
+    if force:
+        desc, mutated = force["desc"], force["mutated"]
+    else:
+        desc = rng.choice(descriptions) if (descriptions and rng.random() < 0.5) else G.small_description(rng)
+        mutated = rng.random() < 0.7
+        if mutated:
+            for _ in range(rng.choice([1, 1, 2])):
+                desc = G.mutate_description(rng, desc)
     text = json.dumps(desc)
     if not core.is_ascii(text):
         return None
-    kind = rng.choice(["local"] * 6 + ["remote"] * 3 + ["missing", "undecodable", "badjson", "abs", "urlerror",
-                                                         "remote-undecodable", "remote-badjson"])
+    kind = force["kind"] if force else rng.choice(
+        ["local"] * 6 + ["remote"] * 3 + ["missing", "undecodable", "badjson", "abs", "urlerror",
+                                           "remote-undecodable", "remote-badjson"])
     bad = rng.choice(['{"modules": [', "", "{'a': 1}", "[1, 2,]", "nul"])
     with F.Work() as w:
         d = w.root / "ext" / "doc"
@@ -178,7 +202,11 @@ def load_case(rng, descriptions):
             src = f"(SRemote {cs(value)} {f})"
         p, outcome = I.load(value, w.root, payload)
         local, qs = {}, []
-        if outcome == "ok":
+        if outcome == "ok" and force:
+            local = force.get("local", {})
+            I.install_locals(p, local)
+            qs = forced_queries(p, force.get("queries", []))
+        elif outcome == "ok":
             names = names_in(desc, set())
             pool = sorted(names) + ["own_a", "own_b"]
             for c in COLL_NAMES:
@@ -188,7 +216,8 @@ def load_case(rng, descriptions):
             qs = gen_queries(rng, p, names, local)
         term = (f"(CLoad {src} {'true' if mutated else 'false'} {I.coq_impl_out(p, outcome)} {coq_blocal(local)} "
                 f"[{'; '.join(f'({q}, {a})' for q, a in qs)}])")
-    return term, {"what": "load", "kind": kind, "mutated": mutated, "external": value, "outcome": outcome,
+    return term, {"what": "load", "source_kind": kind, "mutated": mutated, "external": value, "outcome": outcome,
+                  "raw_queries": (force or {}).get("queries", []),
                   "description": desc if kind in ("local", "remote", "abs") else None,
                   "queries": [q for q, _ in qs], "answers": [a for _, a in qs], "local": local}
 
@@ -230,6 +259,243 @@ def join_cases(rng, n):
     return out
 
 
+# ---------------------------------------------------------------- end to end: B built against A
+
+class Quiet(http.server.SimpleHTTPRequestHandler):
+    def log_message(self, *a):
+        pass
+
+
+class Server:
+    """http.server on 127.0.0.1 serving one directory"""
+
+    def __init__(self, directory):
+        handler = lambda *a, **k: Quiet(*a, directory=str(directory), **k)  # noqa
+        self.httpd = socketserver.ThreadingTCPServer(("127.0.0.1", 0), handler)
+        self.httpd.daemon_threads = True
+        self.port = self.httpd.server_address[1]
+        self.thread = threading.Thread(target=self.httpd.serve_forever, daemon=True)
+        self.thread.start()
+
+    def close(self):
+        self.httpd.shutdown()
+        self.httpd.server_close()
+
+
+LINK_RE = re.compile(r"""<a\s[^>]*?(?:xlink:)?href=(["'])(.*?)\1[^>]*>(.*?)</a>""", re.S)
+TAG_RE = re.compile(r"<[^>]+>")
+MARK_RE = re.compile(r"zq(\d+)zq")
+
+
+def page_links(path):
+    text = path.read_text(errors="replace")
+    for m in LINK_RE.finditer(text):
+        label = html.unescape(TAG_RE.sub("", m.group(3))).strip()
+        yield html.unescape(m.group(2)), label
+
+
+def into_A(href, page, adoc, remote_base):
+    """(file in A's output, fragment) when the link points into A's documentation, else None"""
+    if remote_base:
+        if not href.startswith(remote_base.rstrip("/") + "/") and href != remote_base:
+            if href.startswith("http://127.0.0.1"):
+                return ("OUTSIDE", href)
+            return None
+        rest = href[len(remote_base.rstrip("/")) + 1:]
+        path, _, frag = rest.partition("#")
+        return (adoc / urllib.parse.unquote(path), frag)
+    if re.match(r"[a-z]+:", href) or href.startswith("#"):
+        return None
+    path, _, frag = href.partition("#")
+    target = pathlib.Path(os.path.normpath(os.path.join(page.parent, urllib.parse.unquote(path))))
+    try:
+        target.relative_to(adoc)
+    except ValueError:
+        return None
+    return (target, frag)
+
+
+def markers_at(target, frag):
+    """ids of the entities of A documented at the link target: all markers of the page, or the first marker
+    after the anchor"""
+    text = target.read_text(errors="replace")
+    if not frag:
+        return {int(x) for x in MARK_RE.findall(text)}, True
+    pos = text.find(f'id="{frag}"')
+    if pos < 0:
+        return set(), False
+    m = MARK_RE.search(text, pos)
+    return ({int(m.group(1))} if m else set()), True
+
+
+def e2e_witnesses(chk):
+    """the two recorded findings that exist only end to end, replayed on the working tree"""
+    from findings import c16_common as D
+    p = D.Pair()
+    try:
+        err, _ = p.build_A()
+        if err:
+            chk.violation("failing-input", {"what": "FORD failed on the demonstration project A", "error": err}, True)
+            return
+        err, log = p.build_B(D.B_PLAIN.replace("!! module of B", "!! module of B, see [[ma]] and [[ma:solve]]"),
+                             "../A/doc")
+        chk.count(("witness", "doc-link-local"), sample={"B": "[[ma]] with external: ../A/doc", "error": err})
+        if err and "AttributeError" in err:
+            chk.disagreements += 1
+            if not known_once(chk, "doc-link-to-local-external-crashes"):
+                chk.violation("failing-input", {"what": "[[...]] to a local external ends the run", "error": err}, True)
+        elif err:
+            chk.violation("failing-input", {"what": "FORD failed on B", "error": err, "log": log[-1500:]}, True)
+        else:
+            page = (p.root / "B" / "doc" / "module" / "mb.html").read_text()
+            if not re.search(r"""href=["'][^"']*A/doc/module/ma\.html["'][^>]*>ma</a>""", page):
+                chk.violation("failing-input", {"what": "[[ma]] is not linked to A's module page"}, True)
+    finally:
+        p.close()
+
+
+def end_to_end(chk, rng, npairs, nremote):
+    for k in range(npairs):
+        remote = k < nremote
+        clash = rng.random() < 0.6
+        graph = rng.random() < (0.6 if clash else 0.25)
+        knobs = {} if rng.random() < 0.2 else {"display": ["public", "protected"]}
+        if clash:
+            knobs.update({"clash": True, "nmod": rng.choice([2, 3])})
+        b = BuiltA(rng, knobs)
+        try:
+            if b.err or b.modules_json is None:
+                chk.violation("failing-input", {"what": "FORD failed on a valid generated project A", "error": b.err,
+                                                "files": b.files}, True)
+                continue
+            B = G.gen_B(rng, b.A, doc_refs=remote)
+            bfiles = G.render_B(B)
+            for rel, text in bfiles.items():
+                b.work.write("B/" + rel, text)
+            broot = b.work.root / "B"
+            server = None
+            if remote:
+                server = Server(b.work.root)
+                base = f"http://127.0.0.1:{server.port}/A/doc"
+                ext = base + ("/" if rng.random() < 0.5 else "")
+            else:
+                base, ext = None, "../A/doc"
+            try:
+                data, out, err = F.full_run_inprocess(broot, {"external": f"exta = {ext}",
+                                                              "graph": "true" if graph else "false"})
+            finally:
+                if server:
+                    server.close()
+            chk.count(("pair", json.dumps(b.A, sort_keys=True), json.dumps(sorted(bfiles.items()))),
+                      sample={"A": b.files, "B": bfiles, "external": ext})
+            payload = {"A": b.files, "B": bfiles, "external": ext, "display": b.A["display"], "graph": graph,
+                       "absA": b.A, "absB": B}
+            if err:
+                chk.violation("failing-input", dict(payload, what="FORD failed on B", error=err, log=out[-1500:]), True)
+                continue
+            check_pair(chk, b, B, broot / "doc", base, payload, graph)
+        finally:
+            b.close()
+
+
+def check_pair(chk, b, B, bdoc, base, payload, graph):
+    adoc = (b.root / "doc").resolve()
+    bdoc = bdoc.resolve()
+    ents = {e["id"]: (e, par) for e, par in G.all_entities(b.A)}
+    default_display = set(b.A["display"]) == {"public", "protected"}
+    problems = []
+    links = {}           # page (relative to B's doc) -> [(label, target, frag, marker ids)]
+    for page in sorted(bdoc.rglob("*.html")):
+        rel = str(page.relative_to(bdoc))
+        for href, label in page_links(page):
+            t = into_A(href, page, adoc, base)
+            if t is None:
+                continue
+            if t[0] == "OUTSIDE":
+                problems.append(("link to the server but outside A's documentation", rel, href))
+                continue
+            target, frag = t
+            if not target.is_file():
+                problems.append(("link into A to a page A did not write", rel, href))
+                continue
+            ids, found = markers_at(target, frag)
+            if not found:
+                problems.append(("link into A to an anchor that is not on the page", rel, href))
+                continue
+            links.setdefault(rel, []).append((label, target, frag, ids))
+            # the target documents an entity of that name
+            names = {ents[i][0]["name"].lower() for i in ids if i in ents}
+            if label and label.lower().split("%")[-1] not in names and not label.startswith("http"):
+                problems.append(("link text names no entity documented at the target", rel, href, label))
+    n_links = sum(len(v) for v in links.values())
+    chk.extra["e2e_links_into_A"] = chk.extra.get("e2e_links_into_A", 0) + n_links
+
+    def expect(page, label, ent_id, what):
+        """some link with this text on this page leads to where entity ent_id is documented"""
+        e = ents[ent_id][0]
+        hits = [l for l in links.get(page, []) if l[0].lower() == label.lower()]
+        if any(ent_id in l[3] for l in hits):
+            wrong = [l for l in hits if ent_id not in l[3]]
+            return
+        problems.append((f"{what}: no link '{label}' on {page} reaches the documentation of entity {ent_id} "
+                         f"({e['kind']} {e['name']})", page, [str(l[1]) + "#" + l[2] for l in hits]))
+
+    bnames = {bm["name"].lower() for bm in B["modules"]}
+    for bm in B["modules"]:
+        mpage = f"module/{bm['name'].lower()}.html"
+        if not (bdoc / mpage).is_file():
+            problems.append(("B's module page is missing", mpage))
+            continue
+        for u in bm["uses"]:
+            if "local" in u:
+                bad = [l for l in links.get(mpage, []) if l[0].lower() == u["local"].lower()]
+                if bad:
+                    problems.append(("USE of B's own module is linked into A", mpage, u["local"]))
+                continue
+            if u["amod"]["name"].lower() in bnames:
+                continue
+            expect(mpage, u["amod"]["name"], u["amod"]["id"], "use")
+        for t in bm["types"]:
+            tpage = f"type/{t['name'].lower()}.html"
+            for e in ([t["extends"]] if t["extends"] else []) + t["comps"]:
+                expect(tpage, e["name"], e["id"], "type extension / component")
+                expect(mpage, e["name"], e["id"], "type extension / component (module page)")
+        for v in bm["vars"]:
+            expect(mpage, v["type"]["name"], v["type"]["id"], "variable of an imported type")
+        if graph:
+            for p in bm["procs"]:
+                ppage = f"proc/{p['name'].lower()}.html"
+                for c in p["calls"]:
+                    hits = [l for pg in (ppage,) for l in links.get(pg, []) if c["id"] in l[3]]
+                    if not hits:
+                        problems.append((f"call graph: no link on {ppage} reaches {c['kind']} {c['name']} "
+                                         f"(entity {c['id']})", ppage))
+        for r in bm["refs"]:
+            if r["amod"]["name"].lower() in bnames:
+                continue
+            if r["ent"] is None:
+                expect(mpage, r["amod"]["name"], r["amod"]["id"], f"reference {r['text']}")
+            elif r["qualified"]:
+                expect(mpage, r["ent"]["name"], r["ent"]["id"], f"reference {r['text']}")
+    chk.traces += 1
+    if problems:
+        chk.disagreements += 1
+        dead = all(p[0].startswith("link into A to a page A did not write") or "no link" in p[0] for p in problems)
+        if not default_display and dead and known_once(chk, "export-follows-display"):
+            return
+        chk.violation("failing-input", dict(payload, what="end-to-end: links of B into A", problems=problems[:10]), True)
+
+
+def known_once(chk, key):
+    """account for a case inside a known region: count it, print the KNOWN-FINDING line once"""
+    rc = chk.extra.setdefault("cases_in_known_regions", {})
+    rc[key] = rc.get(key, 0) + 1
+    seen = chk.extra.setdefault("_known_seen", {})
+    if key not in seen:
+        seen[key] = chk.known(key, True)
+    return seen[key]
+
+
 def classify(chk, code, payload, key):
     """common verdict handling: returns True when the case is fine"""
     if code & 1 and not code & 2:
@@ -240,7 +506,7 @@ def classify(chk, code, payload, key):
     if code & 2:
         region = code >> 2
         chk.disagreements += 1
-        if region and chk.known(REGIONS.get(region, "?"), True):
+        if region and known_once(chk, REGIONS.get(region, "?")):
             if code & 1:
                 chk.violation("broken-correspondence", dict(payload, code=code), False)
                 return False
@@ -251,16 +517,22 @@ def classify(chk, code, payload, key):
 
 
 def run(chk):
-    if not chk.build(["theories/Corr/C16.vo"] + (["theories/Props/C16.vo"] if THEOREMS else [])):
-        return
-    if THEOREMS:
+    chk.translate(["t_c16_tables.py"])
+    corr_ok = chk.build(["theories/Corr/C16.vo"])
+    # a broken proof obligation (e.g. a table of the source changed) does not stop the search for a failing input
+    if chk.build(["theories/Props/C16.vo"]):
         chk.props("theories/Props/C16.v", THEOREMS)
+    if not corr_ok:
+        return
     rng = chk.rng
     quick = chk.tier == "quick"
     cases, meta = [], []
     built = []
-    for k in range(12 if quick else 120):
-        b = BuiltA(rng)
+    # (1) export and round trip: FORD's obj2dict / dict2obj against the model, on generated projects A
+    FIRST = [{"display": ["private"]}, {"display": ["public", "private", "protected"]},
+             {"display": ["public", "protected"], "nmod": 3, "clash": True}]
+    for k in range(20 if quick else 200):
+        b = BuiltA(rng, FIRST[k] if k < len(FIRST) else ({"clash": True} if k % 3 == 0 else None))
         built.append(b)
         chk.count(("A", json.dumps(b.A, sort_keys=True)), sample={"A": b.files, "display": b.A["display"]})
         if b.err or b.modules_json is None:
@@ -268,42 +540,126 @@ def run(chk):
                                             "log": b.log[-1500:], "files": b.files}, True)
             continue
         cases.append(export_case(b))
-        meta.append({"what": "export", "files": b.files, "display": b.A["display"]})
-        rc, outcome = round_case(b, None if rng.random() < 0.5 else rng.choice(REMOTE_BASES))
+        meta.append({"what": "export", "files": b.files, "display": b.A["display"], "absA": b.A})
+        remote = None if rng.random() < 0.5 else rng.choice(REMOTE_BASES)
+        rc, outcome = round_case(b, remote)
         cases.append(rc)
-        meta.append({"what": "round", "files": b.files, "outcome": outcome})
+        meta.append({"what": "round", "files": b.files, "outcome": outcome, "absA": b.A, "remote": remote})
+    # (2) loading: corpus (witnesses of the findings first), then descriptions in every state
     descriptions = [b.modules_json for b in built if b.modules_json is not None]
-    for k in range(150 if quick else 3000):
-        lc = load_case(rng, descriptions)
+    corpus = json.load(open(core.VERIF / "corpus" / "C16" / "cases.json"))
+    for k in range(len(corpus["load"]) + (350 if quick else 6000)):
+        lc = load_case(rng, descriptions, corpus["load"][k] if k < len(corpus["load"]) else None)
         if lc is None:
             continue
         cases.append(lc[0])
         meta.append(lc[1])
         chk.count(("load", lc[0]), nontrivial=True, sample=None)
-    for term, m in join_cases(rng, 150 if quick else 3000):
+    # (3) the two re-basing primitives
+    for term, m in join_cases(rng, 300 if quick else 5000):
         cases.append(term)
         meta.append(m)
         chk.count(("join", m["base"], m["rel"]), nontrivial=True)
-    res = chk.coq_judge(IMPORTS, "case", "judge", cases, shard=12)
+    kinds = {}
+    for m in meta:
+        kinds[m["what"]] = kinds.get(m["what"], 0) + 1
+    chk.extra["cases_by_kind"] = kinds
+    res = chk.coq_judge(IMPORTS, "case", "judge", cases, shard=16)
     if res is not None:
         chk.traces += len(cases)
         for idx, code in sorted(res.items()):
             classify(chk, code, meta[idx], None)
     for b in built:
         b.close()
+    # (4) end to end: B built against A's output (local path; http.server on 127.0.0.1), links checked in the HTML
+    e2e_witnesses(chk)
+    end_to_end(chk, rng, 16 if quick else 150, 4 if quick else 40)
+    if not quick:
+        chk.coqchk(["Ford.Props.C16"])
 
 
 def replay(chk, rep):
-    print(json.dumps({k: v for k, v in rep.items() if k != "files"}, indent=1)[:3000])
+    chk.build(["theories/Corr/C16.vo"])
+    what = rep.get("what", "")
+    print("replaying:", what, "| kind:", rep.get("kind"))
+    if what in ("export", "round") and rep.get("absA"):
+        b = BuiltA(None, A=rep["absA"])
+        try:
+            if b.err:
+                print("FORD failed on A:", b.err)
+                return 1
+            term = export_case(b) if what == "export" else round_case(b, rep.get("remote"))[0]
+            res = chk.coq_judge(IMPORTS, "case", "judge", [term])
+            print("judge code (bit0 model!=impl, bit1 spec violated, bits>=2 region):", res)
+            return 1 if res and any(c & 3 for c in res.values()) else 0
+        finally:
+            b.close()
+    if what == "load":
+        import random
+        force = {"kind": {"local": "local", "remote": "remote"}.get(rep["kind"], rep["kind"]),
+                 "desc": rep.get("description"), "mutated": rep.get("mutated", False),
+                 "local": rep.get("local", {}), "queries": rep.get("raw_queries", [])}
+        force["kind"] = rep.get("source_kind", force["kind"])
+        lc = load_case(random.Random(0), [], force)
+        print("outcome:", lc[1]["outcome"], "answers:", lc[1]["answers"])
+        res = chk.coq_judge(IMPORTS, "case", "judge", [lc[0]])
+        print("judge code:", res)
+        return 1 if res and any(c & 1 or (c & 2 and not c >> 2) for c in res.values()) else 0
+    if what == "join":
+        res = chk.coq_judge(IMPORTS, "case", "judge",
+                            [f"(CJoin ({'BLocal' if rep['base'].startswith('/') else 'BRemote'} {cs(rep['base'])}) "
+                             f"{cs(rep['rel'])} {cs(rep['impl'])})"])
+        print("judge code:", res)
+        return 1 if res else 0
+    if rep.get("absA") and rep.get("B"):
+        b = BuiltA(None, A=rep["absA"])
+        try:
+            for rel, text in rep["B"].items():
+                b.work.write("B/" + rel, text)
+            data, out, err = F.full_run_inprocess(b.work.root / "B", {"external": "exta = ../A/doc",
+                                                                      "graph": "true" if rep.get("graph") else "false"})
+            print("B against a local copy of A:", err or "built")
+            if err:
+                return 1
+            if rep.get("absB"):
+                before = getattr(chk, "nviol", 0)
+                check_pair(chk, b, rep["absB"], b.work.root / "B" / "doc", None, {}, bool(rep.get("graph")))
+                for _, _, payload, _ in getattr(chk, "_pending", []):
+                    print(json.dumps(payload.get("problems"), indent=1)[:3000])
+                return 1 if getattr(chk, "nviol", 0) > before else 0
+            return 0
+        finally:
+            b.close()
+    print(json.dumps({k: v for k, v in rep.items() if k not in ("files", "A", "B", "absA", "absB")}, indent=1)[:3000])
     return 0
 
 
 def finish(chk):
+    chk.extra.pop("_known_seen", None)
     return chk.finish(
-        level_note="Coq proof over the model of obj2dict/dict2obj/load_external_modules/find; tied to ford by "
-                   "differential runs",
-        trusted_base=["Coq 8.16.1 kernel (vm_compute)", "harness/props/c16.py, harness/gen/c16gen.py, "
-                      "harness/impl/c16impl.py", "hand-written model Out/External.v"],
-        rule="pairs of generated projects",
-        checker_cmd="make theories/Props/C16.vo && coqc theories/Props/C16.v (Print Assumptions)",
-        assumptions=[])
+        level_note="Coq proofs over all projects A (entity trees of any size, any names, any display, any NameSelector "
+                   "history) and all bases about the model Out/External.v of obj2dict / dump_modules / dict2obj / "
+                   "load_external_modules / find_used_modules / Project.find; the model is tied to ford by evaluating it "
+                   "in Coq on generated projects, descriptions and look-ups next to FORD's own functions, by the "
+                   "regenerated tables (C16_tables_fingerprint), and the statement is searched end to end on the HTML of "
+                   "B built against A (local path and http.server on 127.0.0.1)",
+        trusted_base=["Coq 8.16.1 kernel (vm_compute used for evaluating cases and closed witnesses)",
+                      "hand-written model Out/External.v and spec Out/ExternalSpec.v",
+                      "harness/props/c16.py, harness/gen/c16gen.py (generator + renderer of A and B), "
+                      "harness/impl/c16impl.py (adapters, stub project)",
+                      "translate/t_c16_tables.py (ast reader of the tables)",
+                      "Out/Names.v (NameSelector model, property C10) for idents"],
+        rule="distinct = distinct abstract project A / distinct (source state, description, local names, queries) "
+             "load case / distinct (base, reference) join case / distinct pair (A, B); every case is non-trivial "
+             "(at least one module, or one load, or one join)",
+        checker_cmd="python translate/t_c16_tables.py && make theories/Corr/C16.vo theories/Props/C16.vo && "
+                    "coqc theories/Props/C16.v (Print Assumptions of every theorem)",
+        assumptions=["7-bit names; JSON objects with distinct keys, JSON numbers are naturals",
+                     "A consists of modules with functions, subroutines, generic interfaces (module procedure lists), "
+                     "abstract interfaces, derived types (components, bound procedures), variables, local variables / "
+                     "internal procedures / local types of procedures; no USE association between A's modules",
+                     "project-wide display only, hide_undoc off; pass-through attributes (vartype, deferred, generic, "
+                     "attribs) are stripped before the export comparison",
+                     "str(Path(base)/rel) modelled for a normalised absolute base; urljoin modelled for references "
+                     "without scheme, '//' and dot segments",
+                     "markdown / Jinja templates are outside the model: covered by the end-to-end search only"])
